@@ -214,6 +214,28 @@ def run(ctx):
                 b_containers.setdefault(dotted(n.func.value), []).append(n)
     ctx.floor("R9.3", "expression-driven stores into matcher state", sum(len(v) for v in b_containers.values()), 1)
     pred_reads = {dotted(n) for n in ast.walk(pred_if.test) if isinstance(n, ast.Attribute) and dotted(n) and dotted(n).startswith("self.")}
+    # ... and what the locals it mentions were read from (`names = self.callables; if f in names`)
+    for ln in [n for n in ast.walk(pred_if.test) if isinstance(n, ast.Name)]:
+        for st in walk_no_nested(ev_fn):
+            if isinstance(st, ast.Assign) and any(isinstance(t, ast.Name) and t.id == ln.id for t in st.targets):
+                pred_reads |= {dotted(n) for n in ast.walk(st.value) if isinstance(n, ast.Attribute) and dotted(n) and dotted(n).startswith("self.")}
+    # a predicate that asks a method of the matcher reads what that method reads (and the method's stores are stores outside matches())
+    rcm_methods = {f.name: f for f in funcs_in(rcm) if getattr(f, "_parent", None) is rcm}
+    seen_m = set()
+    work_m = [n.func.attr for n in ast.walk(pred_if.test) if isinstance(n, ast.Call) and isinstance(n.func, ast.Attribute) and norm(n.func.value) == "self" and n.func.attr in rcm_methods]
+    while work_m:
+        mname = work_m.pop()
+        if mname in seen_m:
+            continue
+        seen_m.add(mname)
+        mfn = rcm_methods[mname]
+        me = func_params(mfn)[0] if func_params(mfn) else "self"
+        for n in ast.walk(mfn):
+            if isinstance(n, ast.Attribute) and dotted(n) and dotted(n).startswith(me + "."):
+                pred_reads.add("self." + dotted(n)[len(me) + 1:])
+            if isinstance(n, ast.Call) and isinstance(n.func, ast.Attribute) and norm(n.func.value) == me and n.func.attr in rcm_methods:
+                work_m.append(n.func.attr)
+    pred_reads = {d for d in pred_reads if d.split(".")[1] not in rcm_methods}
     # strip method names: self.data.get -> self.data
     pred_containers = set()
     for d in pred_reads:
@@ -419,7 +441,12 @@ def run(ctx):
                           "underscore attribute can be read", c, f"dominated by the refusal of {na}.startswith('__')",
                           key=f"R9.4:{qualname_of(scope_fn).replace('flow.record.selector.', '')}:unguarded-getattr:{na}")
             else:
-                raise AnalysisError(f"R9.4: cannot classify the provenance of {na} in {qualname_of(scope_fn)}")
+                # a name the classifier cannot trace to the descriptor or to the matcher's filtered attribute list is treated like
+                # expression text: it must be refused when it starts with '__' before the getattr runs
+                ctx.check(refused, "R9.4", construct,
+                          f"NAME ({na}) cannot be traced to a validated source (descriptor field names, the matcher's filtered attribute list) and no refusal of '__' "
+                          "names dominates this getattr: a double-underscore attribute can be read", c, f"dominated by the refusal of {na}.startswith('__')",
+                          key=f"R9.4:{qualname_of(scope_fn).replace('flow.record.selector.', '')}:unguarded-getattr:{na}")
     ctx.floor("R9.4", "getattr sites with a non-constant attribute name", sites, 5)
 
     # ------------------------------------------------------------------ R9.5 no mutation of the record
